@@ -2,6 +2,8 @@ package plugin
 
 import (
 	"bufio"
+	"bytes"
+	"encoding/json"
 	"errors"
 	"io"
 	"log"
@@ -95,6 +97,9 @@ var tsBad bool
 // What a line IS - not JSON / a JSON object with these @-fields / JSON null - is an attribute of the line, fixed before
 // go-plugin sees it; json.Unmarshal then answers accordingly. A line that is a JSON object starts with '{', possibly
 // after white space.
+// jsTrail: the line is a JSON object FOLLOWED by further bytes that are not white space. As a whole it is not JSON
+// (json.Unmarshal fails: a text line); a json.Decoder reading one value from it succeeds and never looks at the rest.
+var jsTrail bool
 var jsPlanned bool
 var jsPlanMap map[string]interface{}
 var jsPlanLine string
@@ -125,11 +130,13 @@ func planJSON(line string) {
 		m["extra"] = vNondetStr("extraval", "")
 	}
 	jsPlanMap = m
+	if vChoice(2) == 1 {
+		jsTrail = true
+		vCover("object-then-trailing-bytes")
+	}
 }
 
-//verif:model encoding/json.Unmarshal
-func mUnmarshal(data []byte, v any) error {
-	raw := v.(*map[string]interface{})
+func jsonValue(data []byte, raw *map[string]interface{}, wholeInput bool) error {
 	if jsForce0 && lastLineIdx == 0 { // the first of two lines is text
 		return errors.New("json: syntax error")
 	}
@@ -145,8 +152,43 @@ func mUnmarshal(data []byte, v any) error {
 	case 2:
 		return nil // the JSON value null: no error, map untouched
 	}
+	if jsTrail && wholeInput {
+		return errors.New("json: invalid character after top-level value")
+	}
 	*raw = jsPlanMap
 	return nil
+}
+
+// json.Decoder over a bytes.Reader: Decode reads ONE value and leaves what follows it unread
+var brG = map[*bytes.Reader][]byte{}
+var decG = map[*json.Decoder][]byte{}
+
+//verif:model bytes.NewReader
+func mBytesNewReader(b []byte) *bytes.Reader {
+	r := new(bytes.Reader)
+	brG[r] = b
+	return r
+}
+
+//verif:model encoding/json.NewDecoder
+func mNewDecoder(r io.Reader) *json.Decoder {
+	d := new(json.Decoder)
+	if br, ok := r.(*bytes.Reader); ok {
+		decG[d] = brG[br]
+	} else {
+		decG[d], _ = io.ReadAll(r)
+	}
+	return d
+}
+
+//verif:model (*encoding/json.Decoder).Decode
+func mDecode(d *json.Decoder, v any) error {
+	return jsonValue(decG[d], v.(*map[string]interface{}), false)
+}
+
+//verif:model encoding/json.Unmarshal
+func mUnmarshal(data []byte, v any) error {
+	return jsonValue(data, v.(*map[string]interface{}), true)
 }
 
 //verif:model time.Parse
@@ -241,11 +283,11 @@ func harnessC10() {
 	vAssert(len(recs) >= 1, "C10: a log record is emitted for the line")
 	r := recs[0]
 	switch {
-	case jsKind == 1 && !tsBad && jsTS != 2 && jsMsg == 1 && jsLvl == 1 && vAnyOf(jsLevel == "trace", jsLevel == "debug", jsLevel == "info", jsLevel == "warn", jsLevel == "error"):
+	case jsKind == 1 && !jsTrail && !tsBad && jsTS != 2 && jsMsg == 1 && jsLvl == 1 && vAnyOf(jsLevel == "trace", jsLevel == "debug", jsLevel == "info", jsLevel == "warn", jsLevel == "error"):
 		vCover("hclog-json")
 		vAssert(r.level == jsLevel, "C10: hclog JSON record is logged at its own level")
 		vAssert(r.msg == jsMessage, "C10: hclog JSON record carries its message")
-	case jsKind == 0:
+	case jsKind == 0 || jsTrail:
 		vCover("text")
 		vAssert(r.msg == L, "C10: a text line is logged verbatim")
 	}
@@ -314,11 +356,11 @@ func harnessC10two() {
 	first := recs[0]
 	inPanic := len(L0)+1 <= B && first.level == "error" && vPrefix(L0, "panic:")
 	switch {
-	case jsKind == 1 && !tsBad && jsTS != 2 && jsMsg == 1 && jsLvl == 1 && vAnyOf(jsLevel == "trace", jsLevel == "debug", jsLevel == "info", jsLevel == "warn", jsLevel == "error"):
+	case jsKind == 1 && !jsTrail && !tsBad && jsTS != 2 && jsMsg == 1 && jsLvl == 1 && vAnyOf(jsLevel == "trace", jsLevel == "debug", jsLevel == "info", jsLevel == "warn", jsLevel == "error"):
 		vCover("hclog-json")
 		vAssert(r.level == jsLevel, "C10: hclog JSON record is logged at its own level (after any first line)")
 		vAssert(r.msg == jsMessage, "C10: hclog JSON record carries its message (after any first line)")
-	case jsKind == 0:
+	case jsKind == 0 || jsTrail:
 		vCover("text")
 		vAssert(r.msg == L1, "C10: a text line is logged verbatim (after any first line)")
 		switch {
